@@ -23,6 +23,7 @@ def make_bam(path, contigs, reads, extra_tag):
             a.query_qualities = pysam.qualitystring_to_array('I')
             a.set_tag('SM', r['sample'])
             a.set_tag('DS', r['ds'])
+            a.set_tag('fe', r['ds'])
             if extra_tag:
                 a.set_tag('XX', r['other'])
             out.write(a)
@@ -56,7 +57,8 @@ def handler(p):
                 args.alignmentfiles = paths
                 args.bin = c['bin']
                 args.sliding = c['sliding']
-                args.joinedFeatureTags = 'XX,DS' if h['extra_tag'] else 'DS'
+                args.joinedFeatureTags = ','.join(c['features'])
+                args.binTag = c['bintag']
                 args.doNotDivideFragments = not c['divide']
                 args.keepOverBounds = c['keep']
                 old = sys.stdout
@@ -72,11 +74,11 @@ def handler(p):
                         idx = idx if isinstance(idx, tuple) else (idx,)
                         sname = sample[0] if isinstance(sample, tuple) else sample
                         lo, hi = int(idx[-2]), int(idx[-1])
-                        other = idx[0] if h['extra_tag'] else None
+                        feats = [str(x) for x in idx[:-2]]
                         v2 = float(v) * 2
-                        assert v2 == int(v2)
+                        assert v2 == int(v2), (v, 'a count that is not a multiple of one half')
                         if v2 != 0:
-                            cells.append([[sname, other, lo, hi], int(v2)])
+                            cells.append([[sname, feats, lo, hi], int(v2)])
                 outs.append({'cells': cells})
             except BaseException as e:
                 outs.append({'error': '%s: %s' % (type(e).__name__, e)})
